@@ -65,13 +65,13 @@ theorem C19_icpt_invisible (c : String → String) (k : KSt) (op : Op) (ho : OpC
 
 /-- **C19_icpt_inv.** The invariants behind ANY id interceptor `c`, for callers that spell ids canonically.  From
 any configuration of initial records the constructor accepts (keys distinct after `c`) in which every record carries
-its key, the keys and the initial active mode's id are canonical and at most one record is normal, after ANY sequence of tame operations with
+its key, the keys and the initial active mode's id (unless empty: the placeholder) are canonical and at most one record is normal, after ANY sequence of tame operations with
 canonical ids: the run is the run of the keyed model without interceptor — hence of `Electric.lean`'s model —, at
 most one listed mode is normal, once changed the active mode's id is a key of the collection, every listed record is
 found under the id it carries, keys are distinct. -/
 theorem C19_icpt_inv (c : String → String) (recs : List Rec) (active : Mode) (k0 : KSt)
     (hc : KSt.iconfig? c recs active = some k0)
-    (hrec : ∀ e ∈ recs, e.1 = e.2.id) (hcan : ∀ e ∈ recs, c e.1 = e.1) (hact : c active.id = active.id)
+    (hrec : ∀ e ∈ recs, e.1 = e.2.id) (hcan : ∀ e ∈ recs, c e.1 = e.1) (hact : active.id = "" ∨ c active.id = active.id)
     (h1 : ∀ x ∈ recs, ∀ y ∈ recs, x.2.normal = true → y.2.normal = true → x = y)
     (ops : List Op) (ht : ∀ op ∈ ops, OpCanon c op ∧ op.Tame) :
     let k := ikrun c k0 ops
@@ -216,33 +216,55 @@ theorem C19_icpt_I2_step (c : String → String) (k : KSt) (id id' : String) (no
 idempotent id interceptor `c` (`c (c x) = c x`, e.g. lower-casing), from any state in which every record is kept
 under the canonical form of the id it carries, keys are distinct, at most one record is normal and — if the active
 mode was already changed — the active mode's id leads to a key of the collection (a new model is such a state),
-after ANY sequence of tame operations, the ids spelled in any way whatever: once changed, the active mode's id
-finds a stored mode, whose id is a spelling of the active mode's id (I3 up to spelling); and every `DeleteMode` /
+after ANY sequence of tame operations, the ids spelled in any way whatever: once changed, the active mode's id —
+unless it is empty (only `SetActiveMode` of a message without id makes it so; the empty id is the placeholder's,
+6e97ca4) — finds a stored mode, whose id is a spelling of the active mode's id (I3 up to spelling); and every `DeleteMode` /
 DeleteMode RPC under ANY spelling `id'` of that key (`c id' = c active.id`) — the active mode's own id included — is
 refused with FailedPrecondition, whatever its options, and changes nothing (I2). -/
 theorem C19_icpt_I2 (c : String → String) (hc : ∀ x, c (c x) = c x) (k0 : KSt)
     (hkc : ∀ e ∈ k0.recs, e.1 = c e.2.id) (hnd : (k0.recs.map (·.1)).Nodup)
     (h1 : ∀ e1 ∈ k0.recs, ∀ e2 ∈ k0.recs, e1.2.normal = true → e2.2.normal = true → e1 = e2)
-    (ha0 : k0.changed = true → c k0.active.id ∈ k0.recs.map (·.1))
+    (ha0 : k0.changed = true → k0.active.id ≠ "" → c k0.active.id ∈ k0.recs.map (·.1))
     (ops : List Op) (ht : ∀ op ∈ ops, op.Tame) :
     let k := ikrun c k0 ops
-    k.changed = true →
+    k.changed = true → k.active.id ≠ "" →
       (∃ st, kfind k (c k.active.id) = some st ∧ c st.id = c k.active.id) ∧
       ∀ id' am d, c id' = c k.active.id →
         ikstep c k (.delete id' am d) = (k, .err .failedPrecondition) ∧
         (id' ≠ "" → ikstep c k (.sDelete id' am) = (k, .err .failedPrecondition)) := by
   obtain ⟨hj, ha⟩ := ikrun_JA hc ops k0 ⟨hkc, hnd, h1⟩ ha0 ht
-  intro k hch
-  have hin := ha hch
+  intro k hch hne0
+  have hin := ha hch hne0
   refine ⟨?_, fun id' am d heq => ?_⟩
   · have hs : (kfind k (c k.active.id)).isSome = true := (kfindL_isSome_iff _ _).mpr hin
     cases hf : kfind k (c k.active.id) with
     | none => simp [hf] at hs
     | some st => exact ⟨st, rfl, (hj.kc _ (kfindL_some hf)).symm⟩
   · have hr : ∀ dd, ikdeleteMode c k id' am dd = (k, .err .failedPrecondition) :=
-      fun dd => ikdeleteMode_refuses hin heq am dd
+      fun dd => ikdeleteMode_refuses hin hne0 heq am dd
     refine ⟨by simp only [ikstep]; exact hr d, fun hne => ?_⟩
     simp only [ikstep, hne, if_false, hr {}]
+
+/-- **C19_icpt_placeholder.** No over-refusal while the placeholder is active (6e97ca4 completes c078347): for ANY
+interceptor `c` — also one that maps the empty id to a key of its own, a prefix `ns/`, a default id —, in ANY state
+whose active mode has the empty id (a new model), a `DeleteMode(id)` with a non-empty id of a mode that carries a
+non-empty id passes the guards of `deleteMode`: it is what `modes.Delete` makes of it, never ErrDeleteActiveMode. -/
+theorem C19_icpt_placeholder (c : String → String) (k : KSt) (id : String) (am : Bool) (d : DOpts)
+    (ha : k.active.id = "") (hid : id ≠ "") (hst : ∀ st, kfind k (c id) = some st → st.id ≠ "") :
+    ikdeleteMode c k id am d = ikdeleteBody c k id am d := by
+  unfold ikdeleteMode
+  have h1 : ¬ id = k.active.id := by rw [ha]; exact hid
+  rw [if_neg h1]
+  have h2 : iknamesActive c k id = false := by
+    unfold iknamesActive
+    cases hf : kfind k (c id) with
+    | none => rfl
+    | some st => simp [ha, hst st hf]
+  rw [h2]
+  simp
+
+/-- an interceptor that maps the empty id to a key of its own -/
+def dfltId : String → String := fun s => if s = "" then "dflt" else s
 
 /-! ## Non-vacuity -/
 
@@ -272,5 +294,10 @@ example : (∀ x, foldB (foldB x) = foldB x) ∧
   by_cases h : x = "B"
   · simp [h]
   · simp [h]
+
+/-- `C19_icpt_placeholder` is not vacuous: behind `dfltId` on a new model, `AddMode dflt` then `DeleteMode dflt`
+succeeds (the third guard as of c078347 looked `findMode("")` up, found this mode and refused) -/
+example : (ikstep dfltId (ikstep dfltId (KSt.ofSt St.init) (.add (Mode.mk4 "dflt" "t" false none))).1
+    (.delete "dflt" false {})).2 = .ok none := by decide
 
 end ScVerif.C19
